@@ -548,6 +548,11 @@ func (r *Report) finish(verifDir string, wall float64, seed int, explanation str
 		st := r.Rules[id]
 		fmt.Printf("rule %-34s instances=%-3d discharged=%-3d excepted=%-2d violations=%-2d info=%d (floor %d)\n", id, st.Instances, st.Discharged, st.Excepted, st.Violations, st.Info, st.Floor)
 	}
+	if os.Getenv("EINO_VERBOSE") != "" {
+		for _, o := range r.Obs {
+			fmt.Printf("  [%s] %s | %s | %s | %s\n", o.Status, o.Rule, o.Construct, o.Pos, o.Detail)
+		}
+	}
 	for _, o := range r.Obs {
 		if o.Status == "known-finding" {
 			fmt.Printf("KNOWN-FINDING: property=%s rule=%s construct=%q at %s: %s\n", r.Prop, o.Rule, o.Construct, o.Pos, o.Detail)
